@@ -117,13 +117,36 @@ def extorder(F, rep):
             continue
         sets = []
         for bi, t in f.calls():
-            if (callee_name(t) or "").endswith("PathBuf::set_extension"):
+            if (callee_name(t) or "").endswith("PathBuf::set_extension") or \
+                    (callee_name(t) or "").endswith("Path::with_extension"):
                 ext = None
                 for o in t["args"][1:]:
                     ext = resolve_str(f, o) or ext
                 sets.append((bi, ext))
         exts = [e for _, e in sets]
         if "incn" not in exts and "incan" not in exts:
+            consts = {v for _, v in all_string_constants(f)}
+            if sets and {"incn", "incan"} <= consts:
+                # the extension is a run-time value taken from a list: first-match order is no longer structural
+                n += 1
+                short = p.split("::")[-1]
+                # accepted only if the loop leaves on the first hit: the exists() true edge must not return to the
+                # probe (no path from the success edge back to set_extension)
+                from c09 import bool_edges
+                ok = False
+                for bi, t in f.calls():
+                    if (callee_name(t) or "").endswith("Path::exists") and not t["d"]["p"]:
+                        for (a, b) in bool_edges(f, t["d"]["l"], True):
+                            if not any(sb in f.reachable(b) for sb, _ in sets):
+                                ok = True
+                rep.oblige("EXTORDER", short, ok, sample={"rule": "EXTORDER", "fn": p, "holds": ok,
+                                                          "detail": "extensions iterated from a list"})
+                if not ok:
+                    rep.add(Finding("EXTORDER", "EXTORDER|%s" % short,
+                                    "%s iterates over the candidate extensions and keeps probing after a hit: with "
+                                    "both `m.incn` and `m.incan` present the LAST existing file wins here while the "
+                                    "shared resolver returns the first (`.incn`) — the front ends compile different "
+                                    "modules" % short, file=f.file, line=f.line, fn=p))
             continue
         n += 1
         rep.functions.add(p)
